@@ -152,6 +152,16 @@ def docstring_lines(c: Ctx, style, ps, ret_typ, documented_types: bool):
 def render_docstring(c: Ctx, ind, lines):
     r = c.rng
     q = TQ2 if r.random() < 0.85 else TQ1
+    k = r.random()
+    if k < 0.02 and lines:
+        c.features.add("one-quote-docstring")
+        return [ind + '"' + lines[0] + '"']
+    if k < 0.04 and lines:
+        c.features.add("raw-docstring")
+        return [ind + "r" + TQ2 + lines[0] + TQ2]
+    if k < 0.05 and lines:
+        c.features.add("triple-dq-in-docstring")
+        return [ind + TQ1 + lines[0] + " " + TQ2 + "quoted" + TQ2] + [(ind + l) if l else "" for l in lines[1:]] + [ind + TQ1]
     if not lines:
         return [ind + q + q] if r.random() < 0.5 else [ind + q + " " + q]
     if len(lines) == 1 and r.random() < 0.6:
@@ -168,6 +178,16 @@ def render_docstring(c: Ctx, ind, lines):
 def gen_body(c: Ctx, ind, depth, ps, ret):
     r = c.rng
     out = []
+    k0 = r.random()
+    if k0 < 0.015:
+        out.append(r.choice(["", "  ", ind + "    "]) + r.choice(COMMENTS))  # a comment not indented like the body
+        c.features.add("odd-comment-indent")
+    elif k0 < 0.03:
+        out.append(r.choice(["  ", "\t", ind + " "]))  # whitespace-only line
+        c.features.add("whitespace-line")
+    elif k0 < 0.04:
+        out.append(ind + r.choice(["todo", "None", "NotImplemented"]))  # a bare name / None as first statement
+        c.features.add("bare-name-first")
     for _ in range(r.choice([0, 1, 1, 2, 3])):
         k = r.random()
         if k < 0.15:
